@@ -58,7 +58,7 @@ def rule_R20_1(ctx):
                    "name set declares something, or makes `[_, _]` a duplicate")
     n = 0
     for f in prog.hand_fns():
-        if f.module != "eval::bind" or f.is_closure or f.from_expansion:
+        if not f.module.startswith("eval::bind") or f.is_closure or f.from_expansion:
             continue
         tests = underscore_tests(f)
         if not tests:
@@ -74,7 +74,7 @@ def rule_R20_1(ctx):
                 continue
             res = c.res or ""
             sensitive = res in SCOPE_FNS or "HashSet" in (c.res_full or "") and res.split("::")[-1] in ("insert", "contains") \
-                or (prog.fns.get(res) is not None and prog.fns[res].module == "eval::bind"
+                or (prog.fns.get(res) is not None and prog.fns[res].module.startswith("eval::bind")
                     and not prog.fns[res].is_closure) \
                 or ("BTreeMap" in (c.res_full or "") and res.split("::")[-1] in ("get", "get_mut", "insert"))
             if not sensitive:
@@ -99,7 +99,7 @@ def rule_R20_1(ctx):
     r.require_floor("name binders with a `_` test", n, 2)
     # every caller of declare/assign sits in a function with such a test
     for f in prog.hand_fns():
-        if f.module == "eval::scope":
+        if f.module.startswith("eval::scope"):
             continue
         for c in f.calls():
             if not c.is_ptr and c.res in SCOPE_FNS[:2]:
@@ -118,7 +118,7 @@ def rule_R20_2(ctx):
                    "an overwriting declare silently redefines a name")
     f = prog.fns.get("eval::scope::ScopeStack::declare")
     if f is None:
-        cands = [g for g in prog.hand_fns() if g.module == "eval::scope"
+        cands = [g for g in prog.hand_fns() if g.module.startswith("eval::scope")
                  and any("HashMap" in (c.res_full or "") and (c.res or "").endswith("::insert") for c in g.calls())]
         f = cands[0] if cands else None
     if f is None:
@@ -193,7 +193,7 @@ def rule_R20_3(ctx):
     found_binder = found_validator = 0
     # binder: switch on a RawExpr parameter
     for f, path in rawexpr_fns(prog):
-        if f.module != "eval::bind":
+        if not f.module.startswith("eval::bind"):
             continue
         vf = mir.VariantFlow(f, [(path, RAWEXPR)])
         rej = set()
@@ -268,7 +268,7 @@ def rule_R20_4(ctx):
                    "hides use-before-declaration")
     n = 0
     for f in prog.hand_fns():
-        if f.module == "eval::scope" or f.from_expansion:
+        if f.module.startswith("eval::scope") or f.from_expansion:
             continue
         for c in f.calls():
             if c.is_ptr or c.res not in ("eval::scope::ScopeStack::get", "eval::scope::ScopeStack::assign"):
